@@ -133,7 +133,7 @@ class IndicatorTardiness(Indicator):
             # tardiness in terms of time units
             weighted_tardiness_v.append(
                 z3.If(
-                    z3.And(t.due_date >= t._end, t._scheduled),
+                    z3.Or(t.due_date >= t._end, z3.Not(t._scheduled)),
                     0,
                     (t._end - t.due_date) * t.priority,
                 )
@@ -160,7 +160,13 @@ class IndicatorEarliness(Indicator):
             self.name = f"Earliness({','.join(t.name for t in self.list_of_tasks)})"
         earliness_v = []
         for t in tasks:
-            earliness_v.append(z3.If(t.due_date - t._end >= 0, t.due_date - t._end, 0))
+            earliness_v.append(
+                z3.If(
+                    z3.And(t.due_date - t._end >= 0, t._scheduled),
+                    t.due_date - t._end,
+                    0,
+                )
+            )
         expression = z3.Sum(earliness_v)
         self.append_z3_assertion(self._indicator_variable == expression)
 
